@@ -156,6 +156,16 @@ def _run_sep(ctx, spec, rng):
     ctx.sample("O2a:separable-never-entangled", {"dims": [da, db], "terms": k, "verdict": verdict, "return_site": site})
     if da * db <= 6:
         ctx.check("O2c:small-systems=PPT", verdict is True, sig=(da, db, "sep"), nt=True, mech="is_separable:small-system-differs-from-PPT", detail={"dims": [da, db], "site": site})
+    if (da, db) == (3, 3):
+        # rank-four two-qutrit states have their own necessary-and-sufficient test in the library: several real and complex four-term mixtures
+        for t_ in range(4):
+            rho4 = gen.product_state_mixture(rng, 3, 3, 4, bool(t_ % 2))
+            if not t_ % 2:
+                rho4 = rho4.real
+            v4, s4 = ask_separable(ctx, rho4, [3, 3], cls + "-rank4")
+            if v4 is not None:
+                ctx.check("O2a:separable-never-entangled", v4 is True, sig=(3, 3, "rank-4", bool(t_ % 2)), nt=True, mech=f"is_separable:separable-declared-entangled@[{s4}]",
+                          detail={"dims": [3, 3], "terms": 4, "complex": bool(t_ % 2), "return_site": s4})
     # the dimension argument omitted (first dimension round(sqrt(N)): equal dimensions and 2x3) or given as a single integer
     if da == db or (da, db) == (2, 3):
         v2, s2 = ask_separable(ctx, rho, None, cls + "-dim-omitted")
